@@ -85,7 +85,7 @@ class Row(Vector):
 	def __init__(self, table, index=0):
 		# SNAPSHOT: Grab raw column lists for speed
 		self._raw_cols = [col._underlying for col in table._underlying]
-		self._column_map = table._column_map
+		self._column_map = table._fresh_column_map()
 		self._index = index
 		
 		# Smart Dtype Inference (Runs once per table iteration/access)
@@ -464,6 +464,12 @@ class Table(Vector):
 			f"Column '{attr}' does not exist. Use >>= to add new columns."
 		)
 
+	def _fresh_column_map(self):
+		"""Column map, rebuilt first if a column was renamed through a live view."""
+		if any(col._wild for col in self._underlying or []):
+			self._column_map = self._build_column_map()
+		return self._column_map
+
 	def _swap_columns(self, new_cols):
 		"""Replace the column tuple, keeping the alias registry and column map in step."""
 		from .alias_tracker import _ALIAS_TRACKER
@@ -714,6 +720,7 @@ class Table(Vector):
 
 		# --- 2. Resolve Target Columns ---
 		# This replicates the lookup logic from __getitem__
+		self._fresh_column_map()
 		target_indices = []
 		n_cols = len(self._underlying)
 		
